@@ -362,6 +362,17 @@ def impl_case(case):
                 or e + n != 1 or e != (1 if same else 0):
             viol.append(dict(kind="eq-neq", eq=C.enc_value(e) if ok1 else e, neq=C.enc_value(n) if ok2 else n,
                              bounds_equal=same))
+    elif name == "interval" and top_ok and not ivpos and len(ops) == 2:
+        # the literal [a, b] with a <= b IS the interval with lower bound a and upper bound b (the bounds every
+        # other clause of the property is stated in)
+        a, b = _frac(ops[0]), _frac(ops[1])
+        if a is not None and b is not None and a <= b:
+            if not isinstance(top_val, T.Interval) or _frac(top_val.a) != a or _frac(top_val.b) != b:
+                viol.append(dict(kind="literal-bounds", result=C.enc_value(top_val), expected="[%s, %s]" % (a, b)))
+    elif name in ("lower", "upper") and top_ok and ivpos and len(ops) == 1:
+        want = _frac(ops[0].a if name == "lower" else ops[0].b)
+        if want is not None and _frac(top_val) != want:
+            viol.append(dict(kind="bound-accessor", op=name, result=C.enc_value(top_val), expected=str(want)))
     elif name in ("==", "!=") and top_ok and len(ivpos) == 1 and len(ops) == 2:
         # an interval against a number: whatever the answer is, == and != must be negations of each other
         ok1, e = _dispatch("==", ops)
